@@ -16,7 +16,7 @@ the no-data value; every other cell holds the sum of the field over its upstream
 upstream graph search), the cell count for the default unit field, and its own value plus the results of its
 direct upstream neighbours; the two input grids hold the same values after the call; no exception. Grids with
 cycles or a reduced limit: the call returns without error.
-Cases: every grid of 1x1, 1x2, 2x1, 2x2 (thorough: also 1x3, 3x1, 2x3, 3x2) over the 8 codes, 0 (sink) and 7 (not a
+Cases: every grid of 1x1, 1x2, 2x1, 2x2 (thorough: also 1x3, 3x1, 2x3 and every other 3x2 grid) over the 8 codes, 0 (sink) and 7 (not a
 code; the quick tier samples 3 000 grids of those extra shapes), 3x3 over 4 codes (sampled in the quick tier); then random grids up to 8x8 (thorough 10x10): descending
 random-elevation forests (long chains), a snake through every cell (longest possible chain), uniformly random
 codes, planted 2-cycles and longer cycles, off-grid exits, invalid and negative codes. Fields: none (unit
@@ -486,6 +486,8 @@ def _body(ctx, rng):
         big = n >= 6
         for gi, fd in enumerate(itertools.product(alphabet, repeat=n)):
             fd = list(fd)
+            if (nrows, ncols) == (3, 2) and gi % 2 == 1:
+                continue                         # 3x2: every other grid (2x3 is complete)
             for ki, kind in enumerate(kinds3):
                 if big and (gi + ki) % 3 != 0:
                     continue                     # 2x3 / 3x2: one field kind per grid, rotating
